@@ -270,7 +270,7 @@ def facesAfter (cfg : Cfg) (r : Raw) : List (List Nat) :=
 
 /-- edges after the completion stage (not yet filtered / normalised) -/
 def edgesAfter (cfg : Cfg) (r : Raw) : List (Int × Int) :=
-  if cfg.ce then completeBy keyE r.edges ((facesAfter cfg r).flatMap faceSides) else r.edges
+  if cfg.ce then completeBy keyE r.edges (validSides r.verts.length (facesAfter cfg r)) else r.edges
 
 theorem completeFaces_faces (r : Raw) :
     (completeFaces r).faces = completeBy keyF r.faces (r.cells.flatMap cellFacesC) := by
@@ -282,13 +282,16 @@ theorem completeFaces_faces (r : Raw) :
   · rfl
 
 theorem completeEdges_edges (r : Raw) :
-    (completeEdges r).edges = completeBy keyE r.edges (r.faces.flatMap faceSides) := by
+    (completeEdges r).edges = completeBy keyE r.edges (validSides r.verts.length r.faces) := by
   unfold completeEdges
   split
   · rename_i h
     have : r.faces = [] := by simpa using h
-    simp [this, completeBy]
+    simp [this, completeBy, validSides]
   · rfl
+
+theorem completeFaces_verts (r : Raw) : (completeFaces r).verts = r.verts := by
+  unfold completeFaces; split <;> rfl
 
 theorem completed_faces (cfg : Cfg) (r : Raw) : (completed cfg r).faces = facesAfter cfg r := by
   unfold completed facesAfter
@@ -313,7 +316,8 @@ theorem completeFaces_eattrs (r : Raw) : (completeFaces r).eattrs = r.eattrs := 
 
 theorem completed_edges (cfg : Cfg) (r : Raw) : (completed cfg r).edges = edgesAfter cfg r := by
   unfold completed edgesAfter facesAfter
-  cases cfg.cf <;> cases cfg.ce <;> simp [completeEdges_edges, completeFaces_edges, completeFaces_faces]
+  cases cfg.cf <;> cases cfg.ce <;>
+    simp [completeEdges_edges, completeFaces_edges, completeFaces_faces, completeFaces_verts]
 
 theorem completed_corners (cfg : Cfg) (r : Raw) :
     (completed cfg r).fcElem = r.fcElem ∧ (completed cfg r).fcAdj = r.fcAdj ∧
@@ -622,8 +626,10 @@ theorem completed_eattrs (cfg : Cfg) (r : Raw) :
       split <;> simp [completeFaces_edges]
     have ha : (if cfg.cf = true then completeFaces r else r).eattrs = r.eattrs := by
       split <;> simp [completeFaces_eattrs]
+    have hv : (if cfg.cf = true then completeFaces r else r).verts = r.verts := by
+      split <;> simp [completeFaces_verts]
     unfold completeEdges
-    rw [hf, he, ha]
+    rw [hf, he, ha, hv]
     by_cases hemp : (facesAfter cfg r).isEmpty = true
     · simp [hemp, ha]
     · have hemp' : (facesAfter cfg r).isEmpty = false := by simpa using hemp
@@ -673,7 +679,7 @@ theorem finalAttr_name (cfg : Cfg) (r : Raw) (a : Attr) : (finalAttr cfg r a).na
 theorem edgesAfter_prefix (cfg : Cfg) (r : Raw) : ∃ added, edgesAfter cfg r = r.edges ++ added := by
   unfold edgesAfter
   split
-  · obtain ⟨ad, h, _⟩ := completeBy_prefix keyE r.edges ((facesAfter cfg r).flatMap faceSides)
+  · obtain ⟨ad, h, _⟩ := completeBy_prefix keyE r.edges (validSides r.verts.length (facesAfter cfg r))
     exact ⟨ad, h⟩
   · exact ⟨[], by simp⟩
 
